@@ -20,7 +20,7 @@ use saito_core::core::consensus::hop::Hop;
 use saito_core::core::consensus::slip::{Slip, SlipType};
 use saito_core::core::consensus::transaction::{Transaction, TransactionType};
 use saito_core::core::defs::{SaitoHash, SaitoPrivateKey, SaitoPublicKey};
-use saito_core::core::util::crypto::{hash, sign, verify};
+use saito_core::core::util::crypto::{hash, verify};
 use verif_harness::common::{jstr, Args, Summary};
 use verif_harness::gal;
 use verif_harness::rng::Rng;
@@ -357,7 +357,7 @@ fn part1(ctx: &mut Ctx, rng: &mut Rng) {
         };
         quads.push((bf, ts, prev, hb, "random"));
         if i % 50 == 0 && prev > 0 {
-            quads.push((bf, rng.range(0, prev), prev, hb, "misordered"));
+            quads.push((bf, rng.range(0, prev.min(u64::MAX - 1)), prev, hb, "misordered"));
         }
     }
 
@@ -405,8 +405,8 @@ fn part1(ctx: &mut Ctx, rng: &mut Rng) {
         if ts >= prev && hb < (1 << 63) {
             let later = match i % 3 {
                 0 => ts.saturating_add(1),
-                1 => ts.saturating_add(rng.range(0, hb.max(1))),
-                _ => ts.saturating_add(rng.range(0, (3 * hb).max(1))),
+                1 => ts.saturating_add(rng.range(0, hb.clamp(1, 1 << 40))),
+                _ => ts.saturating_add(rng.range(0, hb.saturating_mul(3).clamp(1, 1 << 40))),
             };
             oracle_antitone(ctx, case, bf, prev, ts, later, hb, &desc);
         }
@@ -1222,7 +1222,10 @@ async fn run_payout_scenario(ctx: &mut Ctx, rng: &mut Rng, keys: &Keys, cases: &
         // ---------------- an accepted block with a golden ticket: inspect its fee transaction
         let case = first_case + produced;
         let gt_tx = b.transactions.iter().find(|t| t.transaction_type == TransactionType::GoldenTicket).unwrap();
-        let gticket = GoldenTicket::deserialize_from_net(&gt_tx.data);
+        // layout of GoldenTicket::serialize_for_net: target(32) random(32) public_key(33)
+        let _ = GoldenTicket::deserialize_from_net(&gt_tx.data);
+        let gt_random: SaitoHash = gt_tx.data[32..64].try_into().unwrap();
+        let gt_public_key: SaitoPublicKey = gt_tx.data[64..97].try_into().unwrap();
         let fee_txs: Vec<&Transaction> = b.transactions.iter().filter(|t| t.transaction_type == TransactionType::Fee).collect();
         let outputs: Vec<(u64, u64, u64)> = fee_txs
             .iter()
@@ -1242,13 +1245,13 @@ async fn run_payout_scenario(ctx: &mut Ctx, rng: &mut Rng, keys: &Keys, cases: &
         let prev = &chain[chain.len() - 2];
         let pp = if chain.len() >= 3 { Some(&chain[chain.len() - 3]) } else { None };
         // lottery numbers exactly as generate_consensus_values derives them
-        let r1 = hash(gticket.random.as_ref());
+        let r1 = hash(gt_random.as_ref());
         let r1b = hash(r1.as_ref());
         let r2 = hash(hash(r1.as_ref()).as_ref());
         let r2b = hash(r2.as_ref());
         // ---- direct oracle: payees and bound
         let mut eligible: BTreeSet<u64> = BTreeSet::new();
-        eligible.insert(keys.id(&gticket.public_key));
+        eligible.insert(keys.id(&gt_public_key));
         eligible_of(prev, keys, &mut eligible);
         let mut bound: u128 = collected_fees(prev) as u128;
         let paid_blocks = if !prev.has_golden_ticket && pp.is_some() {
@@ -1263,7 +1266,7 @@ async fn run_payout_scenario(ctx: &mut Ctx, rng: &mut Rng, keys: &Keys, cases: &
         let total_out: u128 = outputs.iter().map(|o| o.1 as u128).sum();
         let desc = format!(
             "{{\"part\":\"payout\",\"block_id\":{},\"genesis_period\":{},\"gt_solver_key\":{},\"prev_total_fees\":{},\"prev_avg_total_fees\":{},\"prev_has_gt\":{},\"prevprev_total_fees\":{},\"paid_blocks\":{},\"fee_tx_outputs_key_amount_kind\":{:?},\"eligible_keys\":{:?},\"bound\":{}}}",
-            b.id, gp, keys.id(&gticket.public_key), prev.total_fees, prev.avg_total_fees, prev.has_golden_ticket,
+            b.id, gp, keys.id(&gt_public_key), prev.total_fees, prev.avg_total_fees, prev.has_golden_ticket,
             pp.map(|x| x.total_fees).unwrap_or(0), paid_blocks, outputs, eligible, bound
         );
         if fee_txs.len() != 1 {
@@ -1284,7 +1287,7 @@ async fn run_payout_scenario(ctx: &mut Ctx, rng: &mut Rng, keys: &Keys, cases: &
                     &desc,
                 );
             }
-            if o.2 == 1 && o.0 != keys.id(&gticket.public_key) {
+            if o.2 == 1 && o.0 != keys.id(&gt_public_key) {
                 ctx.summary.oracle_failure(case, &format!("miner output goes to key#{} not the golden-ticket solver", o.0), &desc);
             }
         }
@@ -1316,7 +1319,7 @@ async fn run_payout_scenario(ctx: &mut Ctx, rng: &mut Rng, keys: &Keys, cases: &
             let outs: Vec<String> = outputs.iter().map(|o| format!("({}, {}, {})", o.0, o.1, o.2)).collect();
             cases.push(format!(
                 "(({}, Some (({}, {}, {}), {}, {}, {}, {})), {})",
-                keys.id(&gticket.public_key),
+                keys.id(&gt_public_key),
                 prev.total_fees,
                 prev.avg_total_fees,
                 gal::boolean(prev.has_golden_ticket),
@@ -1425,7 +1428,9 @@ async fn part3(ctx: &mut Ctx, rng: &mut Rng) {
 fn main() {
     let args = Args::parse();
     verif_harness::common::init_log();
-    std::panic::set_hook(Box::new(|_| {}));
+    if std::env::var("C08_VERBOSE_PANICS").is_err() {
+        std::panic::set_hook(Box::new(|_| {}));
+    }
     let mut rng = Rng::new(args.seed);
     let dbg = overflow_checks_on();
     let mut ctx = Ctx { args, dbg, summary: Summary::new("C08"), files: vec![], distinct: BTreeSet::new() };
